@@ -13,7 +13,8 @@ for d in sorted(glob.glob(os.path.join(os.path.dirname(os.path.dirname(os.path.a
             obl = sorted(set(l.split('replay=')[1].split()[0].split('/')[-1].rsplit('.json', 1)[0].rsplit('_', 1)[0] if 'bounded' not in l else 'bounded:' + l.split('bounded_')[1].split('.')[0] for l in r['violation_lines']))
             by.append('%s: %s' % (p, ', '.join(obl[:3])))
     what = m['summary'].split('. ')[0][:150]
-    status = 'not reproducible on the current tree' if m.get('no_longer_manifests') else ('**caught**' if ev.get('detected') else 'MISSED')
+    status = ('**caught**' + (' (by proof only: its demo no longer fails on the current tree)' if m.get('no_longer_manifests') else '')) if ev.get('detected') \
+        else ('not reproducible on the current tree' if m.get('no_longer_manifests') else 'MISSED')
     rows.append('| %s | %s | %s | %s |' % (name, what.replace('|', '/'), status, '; '.join(by).replace('|', '/') or '-'))
 print('| change | what it does | result | failed obligation(s) |')
 print('|---|---|---|---|')
